@@ -180,6 +180,12 @@ Definition light_fill (cid : Z) (data : list Z) : chk_info :=
 Definition ci_sync (ci : cindex) (cks : list (Z * list Z)) : cindex :=
   map (fun ck => match find_chunk ci (fst ck) with Some k => k | None => light_fill (fst ck) (snd ck) end) cks.
 
+(* a clean shutdown and start: close() writes the infos to cindex.dat (exported fields only: id, hull, root;
+   makeCorrupted has emptied the root of a corrupted info) and init() loads them, so lastRec and the corrupted
+   flag start from zero *)
+Definition ci_restart (ci : cindex) : cindex :=
+  map (fun k => mkinfo (k_id k) (k_min k) (k_max k) (if k_bad k then None else k_root k) 0 false) ci.
+
 (* cindex.readData: None = error (corrupted / no index) *)
 Definition ci_read_data (ci : cindex) (cid : Z) : option (list rec) :=
   match find_chunk ci cid with
